@@ -650,7 +650,7 @@ Proof.
             let '(r, l) := fold_left (fun '(result, line) t =>
                  match t with
                  | VStr s =>
-                     match splitlines s with
+                     match split_crlf s with
                      | [] => (result, line ++ [VStr []])
                      | l0 :: ls =>
                          fold_left (fun '(res, ln) l => (res ++ [ln], [VStr l])) ls (result, line ++ [VStr l0])
@@ -660,7 +660,7 @@ Proof.
             Forall (fun l => plain_tokens l = true) r /\ plain_tokens l = true).
   { induction toks as [|t toks IH]; intros res ln Ht Hr Hl; cbn [fold_left]; [split; assumption|].
     cbn [plain_tokens forallb] in Ht. apply andb_true_iff in Ht. destruct Ht as [Ht Hts]. destruct t as [s|i nm]; [|discriminate].
-    destruct (splitlines s) as [|l0 ls].
+    destruct (split_crlf s) as [|l0 ls].
     - apply IH; [exact Hts|exact Hr|]. rewrite plain_app, Hl. reflexivity.
     - pose proof (split_plain_aux ls res (ln ++ [VStr l0]) Hr) as Hs.
       destruct (fold_left _ ls (res, ln ++ [VStr l0])) as [r' l'].
